@@ -10,3 +10,7 @@ func SetMapOrderHook(f func(n int) []int)       {}
 func SetSchedHooks(point func(label string), block func(label string, waiting func() bool)) {
 }
 func AccessSites() []string { return nil }
+
+func GlobalPointers() map[string]map[string]interface{} { return nil }
+
+func AtomicImports() int { return 0 }
